@@ -115,6 +115,35 @@ def _build_one(ctx, kind, variant, rational, tag, clamped=True):
     return dict(obj=obj, pd=k['pd'], deg=deg, kvs=kvs, sizes=sizes, P=P, W=W, Pw=shapes.homog(P, W))
 
 
+def _shared_containers(a, b):
+    """paths of list/dict/set objects reachable from both object graphs (geometry objects are walked through vars())"""
+    def walk(o, path, acc, seen):
+        if id(o) in seen:
+            return
+        seen.add(id(o))
+        if isinstance(o, (list, dict, set)):
+            acc[id(o)] = path
+        if isinstance(o, dict):
+            for k, v in o.items():
+                walk(v, '%s[%r]' % (path, k), acc, seen)
+        elif isinstance(o, (list, tuple, set)):
+            for k, v in enumerate(o):
+                walk(v, '%s[%d]' % (path, k), acc, seen)
+        elif hasattr(o, '__dict__') and type(o).__module__.startswith('geomdl') and not isinstance(o, type):
+            if type(o).__name__.endswith('Evaluator') or 'Tessellate' in type(o).__name__:
+                return
+            for k, v in vars(o).items():
+                walk(v, '%s.%s' % (path, k), acc, seen)
+    A, B = {}, {}
+    walk(a, 'input', A, set())
+    walk(b, 'result', B, set())
+    return sorted('%s is %s' % (A[i], B[i]) for i in A if i in B and (len(A[i]) and True) and _nonempty(i, a, A))
+
+
+def _nonempty(i, root, table):
+    return True
+
+
 def _raw_point(sh, pts, prm):
     deg, kvs, sizes = sh['deg'], sh['kvs'], sh['sizes']
     if sh['pd'] == 1:
@@ -230,6 +259,11 @@ def _instances(tier):
     for kind, rational in (('curve3', False), ('curve2', True), ('surface', False)):
         for op, axis in ((('rotate', None),) if kind == 'curve2' else (('rotate', 0), ('rotate', 2))):
             out.append(dict(kind=kind, rational=rational, op=op, axis=axis, inplace=True, count=0, big=False, clamped=False))
+    # sampled points read before the transform must be moved too (stale evaluated-point caches)
+    for kind, rational in (('curve3', False), ('surface', True), ('volume', False), ('volume', True)):
+        for op, axis, inplace in (('translate', None, False), ('scale', None, True), ('rotate', 2, True)):
+            out.append(dict(kind=kind, rational=rational, op=op, axis=axis, inplace=inplace, count=0, big=False, grid=True))
+    out.append(dict(kind='curve3', rational=True, op='translate', axis=None, inplace=False, count=2, big=False, grid=True))
     # containers of 1-3 shapes
     k = 0
     for kind, counts in (('curve3', (1, 2, 3)), ('curve2', (2,)), ('surface', (1, 3)), ('volume', (2,))):
@@ -247,7 +281,7 @@ def _instances(tier):
                       'abstract.GeomdlBase.__deepcopy__', 'NURBS.Curve.ctrlpts', 'NURBS.Surface.ctrlpts',
                       'NURBS.Volume.ctrlpts', 'linalg.vector_generate'],
           quick=lambda: _instances('quick'), thorough=lambda: _instances('thorough'))
-def affine_map(ctx, kind, rational, op, axis, inplace, count, big, clamped=True):
+def affine_map(ctx, kind, rational, op, axis, inplace, count, big, clamped=True, grid=False):
     """requires: valid clamped knot vectors, parameters in the domain, positive weights; any vector / factor / angle;
                  count = 0: the bare shape, count = 1..3: a container of that many shapes (different degrees and sizes)
        ensures : every shape of the result evaluates to tau(original point); weights, degrees, sizes, knot vectors
@@ -292,6 +326,21 @@ def affine_map(ctx, kind, rational, op, axis, inplace, count, big, clamped=True)
         ctx.check_eq_vec('shape%d.input_evaluates_to_spec' % i, got, want)
         before.append(got)
 
+    # sampled points read BEFORE the transform (this fills the evaluated-point caches of the input)
+    grid_before = None
+    if grid:
+        for sh in members:
+            o = sh['obj']
+            if sh['pd'] == 1:
+                o.sample_size = 2
+            elif sh['pd'] == 2:
+                o.sample_size_u, o.sample_size_v = 2, 2
+            else:
+                o.sample_size_u, o.sample_size_v, o.sample_size_w = 2, 2, 2
+        grid_before = [[list(p) for p in sh['obj'].evalpts] for sh in members]
+        if rational:
+            _ = [(sh['obj'].ctrlpts, sh['obj'].weights) for sh in members]
+
     snap = _snap(vars(obj))
     if op == 'translate':
         res = ops.translate(obj, list(arg), inplace=inplace)
@@ -330,3 +379,22 @@ def affine_map(ctx, kind, rational, op, axis, inplace, count, big, clamped=True)
         ctx.check_eq_vec('shape%d.point=tau(point)' % i, _at(sh, r, prm), _tau(op, arg, origin, before[i], eff_axis))
         if op == 'rotate' and i == 0:
             ctx.check_eq_vec('rotate.start_point_fixed', _at(sh, r, start), origin)
+        if grid_before is not None:
+            after = [list(p) for p in r.evalpts]
+            ctx.check_true('shape%d.grid.size' % i, len(after) == len(grid_before[i]))
+            for k2, (pa, pb) in enumerate(zip(after, grid_before[i])):
+                ctx.check_eq_vec('shape%d.grid[%d]=tau(grid)' % (i, k2), pa, _tau(op, arg, origin, pb, eff_axis))
+
+    # independence of the returned copy: no mutable container is shared with the input (caches included), and a
+    # following in-place edit of the result leaves the input where it was
+    if not inplace:
+        shared = _shared_containers(obj, res)
+        ctx.check_true('copy.shares_nothing_with_input', not shared, 'shared: %s' % (shared[:4],))
+        if rational:
+            _ = [(sh['obj'].ctrlpts, sh['obj'].weights) for sh in members]       # read the input's views in between
+        res2 = ops.scale(res, ctx.lit(2), inplace=True)
+        for i, sh in enumerate(members):
+            r = res2[i] if count else res2
+            want1 = _tau(op, arg, origin, before[i], eff_axis)
+            ctx.check_eq_vec('followup.shape%d.point=2*tau(point)' % i, _at(sh, r, prm), [2 * c for c in want1])
+            ctx.check_eq_vec('followup.input%d_still_unchanged' % i, _at(sh, sh['obj'], prm), before[i])
